@@ -11,6 +11,7 @@ import (
 	"net"
 	"sort"
 	"strings"
+	"sync"
 	"testing"
 	"time"
 
@@ -395,6 +396,10 @@ type vfExchange struct {
 	// EagerReply: the peer's next frames are read (by what would be the read loop of the HTTP/2 stack) while the Write
 	// call that carried the frames they answer has not returned yet
 	EagerReply bool `json:"eagerReply"`
+	// TableSize: per direction, the HPACK dynamic-table size that direction's encoder switches to before its first
+	// header block (0: stays at the 4096 default). The other side announces it in a SETTINGS frame first, the encoder
+	// then signals the change in its next header block; sizes above and below the default, also ~0.
+	TableSize [2]int `json:"tableSize,omitempty"`
 	// PeerCloses: after the last frame the peer closes the connection (the next Read returns EOF) before this side
 	// calls Close itself
 	PeerCloses bool `json:"peerCloses"`
@@ -637,6 +642,15 @@ func vfBuildFrames(ex vfExchange) ([]vfWireFrame, map[int]uint32) {
 	encs := [2]*hpack.Encoder{hpack.NewEncoder(&hbufs[0]), hpack.NewEncoder(&hbufs[1])}
 	framers := [2]*http2.Framer{http2.NewFramer(&bufs[0], nil), http2.NewFramer(&bufs[1], nil)}
 	var out []vfWireFrame
+	for d := 0; d < 2; d++ {
+		if size := ex.TableSize[d]; size > 0 {
+			_ = framers[1-d].WriteSettings(http2.Setting{ID: http2.SettingHeaderTableSize, Val: uint32(size)})
+			out = append(out, vfWireFrame{Dir: 1 - d, Bytes: append([]byte{}, bufs[1-d].Bytes()...), Desc: fmt.Sprintf("settings(header-table-size=%d,dir%d)", size, 1-d)})
+			bufs[1-d].Reset()
+			encs[d].SetMaxDynamicTableSizeLimit(uint32(size))
+			encs[d].SetMaxDynamicTableSize(uint32(size))
+		}
+	}
 	encode := func(dir int, fields [][2]string) []byte {
 		hbufs[dir].Reset()
 		for _, f := range fields {
@@ -862,6 +876,7 @@ func vfRunExchange(ex vfExchange, cuts [2][]int) ([]Trace, error) {
 	if !bytes.Equal(all, wantWritten) {
 		return nil, verifkit.Violf("conn-bytes-changed", "bytes forwarded to the inner conn differ from what was written (%d vs %d bytes)", len(all), len(wantWritten))
 	}
+	coll.inflight.Wait() // (deliveries that were under way when the connection was closed)
 	coll.mu.Lock()
 	defer coll.mu.Unlock()
 	return append([]Trace{}, coll.traces...), nil
@@ -1270,6 +1285,11 @@ func vfGenExchange(t *rapid.T) vfExchange {
 		}
 	}
 	ex.EagerReply = rapid.IntRange(0, 3).Draw(t, "eagerReply") == 0
+	for d := 0; d < 2; d++ {
+		if rapid.IntRange(0, 3).Draw(t, "otherTableSize") == 0 {
+			ex.TableSize[d] = rapid.SampledFrom([]int{1, 100, 200, 4097, 65536, 1 << 20}).Draw(t, "tableSize")
+		}
+	}
 	ex.PeerCloses = rapid.IntRange(0, 3).Draw(t, "peerCloses") == 0
 	if rapid.IntRange(0, 2).Draw(t, "timeoutReads") == 0 {
 		for i, k := 0, rapid.IntRange(1, 6).Draw(t, "ntimeouts"); i < k; i++ {
@@ -1424,6 +1444,117 @@ func TestVerifC15Listener(t *testing.T) {
 				en.Done(true)
 				return
 			}
+		}
+	}
+	en.Done(true)
+}
+
+// ---- refused streams and the retry period (shared with C16) ----
+
+// TestVerifC16RetryTimer: a named stream is refused by the peer and never retried. The trace is held back for the
+// retry period and then delivered by a timer; when the connection is closed later, that operation has already
+// completed its trace - it must not be completed a second time. (Borrows the HTTP/2 exchange driver of the C15
+// harness; waits out the real retry period, hence only a handful of cases.)
+func TestVerifC15RetryTimer(t *testing.T) { vfRetryTimerUnit(t, "C15RetryTimer") }
+
+func vfRetryTimerUnit(t *testing.T, unit string) {
+	en := verifkit.NewEnum(t, unit)
+	type row struct {
+		Server bool `json:"server"`
+		Extra  bool `json:"extraStream"` // another, normal stream on the same connection
+		Wait   bool `json:"waitOutRetryPeriod"`
+		// PeerEnds: the connection ends the usual way - the peer closes (Read returns EOF), then this side calls Close -
+		// so the tracer learns twice that the connection is gone
+		PeerEnds bool `json:"peerEnds"`
+		// SlowCollector: the collector takes 600 ms to accept a trace and the connection is closed 150 ms after the
+		// retry period ran out, i.e. while the held-back trace is being handed over
+		SlowCollector bool `json:"slowCollector,omitempty"`
+	}
+	var rows []row
+	for _, server := range []bool{false, true} {
+		for _, extra := range []bool{false, true} {
+			for _, wait := range []bool{true, false} {
+				rows = append(rows, row{server, extra, wait, false, false})
+			}
+			rows = append(rows, row{server, extra, false, true, false})
+		}
+		rows = append(rows, row{server, false, true, false, true}, row{server, true, true, true, true})
+	}
+	var mu sync.Mutex // vfBeforeClose is a package variable: one exchange at a time
+	for _, r := range rows {
+		ex := vfExchange{Server: r.Server, GoAwayAt: -1, PeerCloses: r.PeerEnds}
+		ex.Streams = append(ex.Streams, vfStreamSpec{Named: true, Name: 0, Attempt: 1, ReqCT: "application/proto", RespCT: "application/proto",
+			ReqMsgs: []vfMsg{{Payload: []byte("ping")}}, Fault: "refused", FaultAt: 1, RSTCode: 7, Order: []bool{true, false}})
+		if r.Extra {
+			ex.Streams = append(ex.Streams, vfStreamSpec{Named: true, Name: 1, Attempt: 1, ReqCT: "application/proto", RespCT: "application/proto",
+				ReqMsgs: []vfMsg{{Payload: []byte("a")}}, RespMsgs: []vfMsg{{Payload: []byte("b")}}, Trailers: true, Order: []bool{true, false}})
+		}
+		for i := 0; i < 12; i++ {
+			ex.Schedule = append(ex.Schedule, i%2)
+		}
+		mu.Lock()
+		if r.Wait {
+			vfBeforeClose = func() { time.Sleep(retryWait + 500*time.Millisecond) }
+		}
+		if r.SlowCollector {
+			vfBeforeClose = func() { time.Sleep(retryWait + 150*time.Millisecond) }
+			vfSlowCollect = func(Trace) time.Duration { return 600 * time.Millisecond }
+		}
+		traces, err := vfRunExchange(ex, [2][]int{})
+		vfBeforeClose, vfSlowCollect = nil, nil
+		mu.Unlock()
+		var viol error
+		if err != nil {
+			viol = err
+		} else {
+			count := map[string]int{}
+			for _, tr := range traces {
+				count[tr.TestName]++
+			}
+			for name, n := range count {
+				if n != 1 {
+					viol = verifkit.Violf("retry-complete-count", "the operation %q completed its trace %d times (refused stream, no retry, connection closed %v the retry period): want exactly once", name, n, map[bool]string{true: "after", false: "within"}[r.Wait])
+				}
+			}
+			if count[vfTestName(ex.Streams[0])] == 0 {
+				viol = verifkit.Violf("retry-missing-trace", "the refused stream never completed a trace (%+v)", r)
+			}
+		}
+		en.Rec.Observe(r, []string{fmt.Sprintf("server:%v", r.Server), fmt.Sprintf("waited:%v", r.Wait)}, r.Wait)
+		if viol != nil && en.Fail(r, viol) {
+			break
+		}
+	}
+	// a stream refused twice and then served: attempt 2 starts (and is refused) while attempt 1's retry period is still
+	// running, attempt 3 is served after attempt 1's period has run out but within attempt 2's. The operation completes
+	// its trace exactly once, with the served attempt.
+	for _, server := range []bool{false, true} {
+		ex := vfExchange{Server: server, GoAwayAt: -1, Schedule: []int{0}}
+		for attempt := 1; attempt <= 3; attempt++ {
+			sp := vfStreamSpec{Named: true, Name: 0, Attempt: attempt, ReqCT: "application/proto", RespCT: "application/proto",
+				ReqMsgs: []vfMsg{{Payload: []byte("ping")}}, RespMsgs: []vfMsg{{Payload: []byte("pong")}}, Trailers: true, Order: []bool{true, false, true, false}}
+			if attempt < 3 {
+				sp.Fault, sp.FaultAt, sp.RSTCode = "refused", 1, 7
+			}
+			ex.Streams = append(ex.Streams, sp)
+		}
+		mu.Lock()
+		vfPauseBeforeFrame = func(desc string) time.Duration {
+			switch {
+			case strings.HasPrefix(desc, "headers(s1,dir0"):
+				return retryWait / 2
+			case strings.HasPrefix(desc, "headers(s2,dir0"):
+				return retryWait/2 + 400*time.Millisecond
+			}
+			return 0
+		}
+		err := vfC15Check(ex)
+		vfPauseBeforeFrame = nil
+		mu.Unlock()
+		r := map[string]any{"server": server, "scenario": "refused, refused again within the retry period, then served"}
+		en.Rec.Observe(r, []string{fmt.Sprintf("server:%v", server), "double-refusal"}, true)
+		if err != nil && en.Fail(r, err) {
+			break
 		}
 	}
 	en.Done(true)
